@@ -7,7 +7,6 @@ import (
 	"strconv"
 	"strings"
 	"unicode/utf16"
-	"unicode/utf8"
 )
 
 // String
@@ -254,8 +253,8 @@ func builtinStringReplace(call FunctionCall) Value {
 					argumentList[index] = Value{}
 				}
 			}
-			// Replace expects rune offsets not byte offsets.
-			startIndex := utf8.RuneCountInString(target[0:match[0]])
+			// The offset is a position in UTF-16 code units (15.5.4.11), not bytes.
+			startIndex := utf16Length(target[0:match[0]])
 			argumentList[matchCount+0] = intValue(startIndex)
 			argumentList[matchCount+1] = stringValue(target)
 			replacement := replace.call(Value{}, argumentList, false, nativeFrame).string()
